@@ -239,12 +239,24 @@ func (c *Compiler) SetGlobalSymbolsIndex() {
 	c.symbolTable.Range(
 		visitParent,
 		func(s *Symbol) bool {
-			if s.Scope == ScopeGlobal && s.Index == -1 {
+			if s.Scope == ScopeGlobal && !c.isGlobalSymbolIndex(s) {
 				s.Index = c.addConstant(String(s.Name))
 			}
 			return true
 		},
 	)
+}
+
+// isGlobalSymbolIndex reports whether the index of a global symbol refers to
+// the constant holding its name. A symbol table that is used again after a
+// failed compilation keeps the indexes handed out by that compilation, while
+// the constants it added are gone.
+func (c *Compiler) isGlobalSymbolIndex(s *Symbol) bool {
+	if s.Index < 0 || s.Index >= len(c.constants) {
+		return false
+	}
+	name, ok := c.constants[s.Index].(String)
+	return ok && string(name) == s.Name
 }
 
 // optimize runs the Optimizer and returns Optimizer object and error from Optimizer.
